@@ -16,7 +16,7 @@ EXPLANATION = (
     "equilibration; (R4) caches and mirrors follow the data: clear_normq/clear_normb (each clearing its own cache), "
     "kktsystem.update_P/A after the data write with the solver's own matrices; (R5) KKT mirror discipline: the KKT "
     "value array is written only through the paired update/scale helpers that also forward to the LDL engine, except "
-    "the reviewed regularisation restore; P->map.P, A->map.A; QDLDL indexes through AtoPAPt; (R6) equilibration "
+    "the reviewed regularisation restore; P->map.P, A->map.A; QDLDL indexes through AtoPAPt; the LDL back ends (QDLDL, faer) agree on what update_values / scale_values / offset_values do to their own copy; (R6) equilibration "
     "happens once, at construction.")
 ASSUMPTIONS = ['rustc MIR construction and trait resolution are correct', 'algebra primitives have their documented meaning']
 
